@@ -132,6 +132,40 @@ def schema_ref_shares_one_class(kind: int, required: bool, wrap: int) -> bool:
     )
 
 
+DEFAULTED_KINDS = (
+    {"type": "string", "enum": ["x", "y"], "default": "y"},
+    {"type": "integer", "enum": [0, 1, 2], "default": 0},
+    {"type": "integer", "default": 25},
+    {"type": "string", "default": ""},
+    {"type": "boolean", "default": False},
+    {"type": "string", "format": "date", "default": "2020-01-02"},
+)
+_DEFAULTED = tuple(build_schemas(components={"Target": oai.Schema.model_validate(k)}, schemas=Schemas(), config=CFG) for k in DEFAULTED_KINDS)
+
+
+def wrapper_and_bare_reference_agree(kind: int, required: bool, wrap: int) -> bool:
+    """
+    A single-element allOf / oneOf / anyOf wrapper around a reference is the bare reference: same kind of property,
+    same type, same requiredness and the *same default* (whatever the generator decides a reference inherits from the
+    component, the wrapper must decide alike) - for components that declare a default of their own.
+    pre: 0 <= kind < 6 and 1 <= wrap < 4
+    post: _
+    """
+    schemas = _pick(_DEFAULTED, kind)
+    if schemas.errors:
+        return False
+    r = {"$ref": "#/components/schemas/Target"}
+    data = oai.Schema.model_validate(_pick((r, {"allOf": [r]}, {"oneOf": [r]}, {"anyOf": [r]}), wrap))
+    required = True if required else False
+    bare, s1 = property_from_data(name="p", required=required, data=oai.Reference.model_validate(r), schemas=schemas, parent_name="Parent", config=CFG)
+    other, s2 = property_from_data(name="p", required=required, data=data, schemas=schemas, parent_name="Parent", config=CFG)
+    if isinstance(bare, PropertyError) or isinstance(other, PropertyError):
+        return False
+    da = None if bare.default is None else bare.default.python_code
+    db = None if other.default is None else other.default.python_code
+    return type(bare) is type(other) and bare.get_type_string() == other.get_type_string() and bare.required == other.required == required and da == db and sorted(s1.classes_by_name) == sorted(s2.classes_by_name)
+
+
 # ------------------------------------------------------------------------------------------------ component that is only a reference
 from openapi_python_client.parser.properties import ModelProperty, build_schemas  # noqa: E402
 
